@@ -371,7 +371,9 @@ class SwitchRouter(BaseRouter):
             pairs.append(
                 (self.default_category.exit, Edge(from_=row_id))
             )  # By convention, the condition is blank rather than 'Other'
-        if self.no_response_category:
+        no_response = self.no_response_category
+        # The No Response category comes with the row: no edge if it leads nowhere
+        if no_response and no_response.exit.destination_uuid:
             pairs.append(
                 (
                     self.no_response_category.exit,
